@@ -13,3 +13,5 @@ import Props.C15
 #print axioms C15.soft_in_then_changes
 #print axioms C15.distinct_addr_keys
 #print axioms C15.refresh_lock_premise
+#print axioms C15.emptied_prefix_set_invert_counterexample
+#print axioms C15.prefix_condition_family_partial
